@@ -636,6 +636,11 @@ def l_str(x="", *a):
 _DIG = "0123456789abcdefghijklmnopqrstuvwxyz"
 
 
+def _msg_repr(x):
+    """repr for error messages: formatting a symbolic text would realise it (one path per value)"""
+    return repr(x) if _is_conc(x) else "'<symbolic>'"
+
+
 def l_int(x=0, base=None):
     """the call `int(...)` in lifted code: int(b'..', base) with bytes semantics (ASCII digits,
     surrounding ASCII whitespace, sign, underscores rejected here for simplicity = same as CPython
@@ -657,7 +662,7 @@ def l_int(x=0, base=None):
     if b == 16 and s[:2] in ("0x", "0X"):
         s = s[2:]
     if len(s) == 0:
-        raise ValueError("invalid literal for int() with base %d: %r" % (b, x))
+        raise ValueError("invalid literal for int() with base %d: %s" % (b, _msg_repr(x)))
     v = 0
     for ch in s:
         o = ord(ch)
@@ -668,9 +673,9 @@ def l_int(x=0, base=None):
         elif 65 <= o <= 90:
             d = o - 55
         else:
-            raise ValueError("invalid literal for int() with base %d: %r" % (b, x))
+            raise ValueError("invalid literal for int() with base %d: %s" % (b, _msg_repr(x)))
         if d >= b:
-            raise ValueError("invalid literal for int() with base %d: %r" % (b, x))
+            raise ValueError("invalid literal for int() with base %d: %s" % (b, _msg_repr(x)))
         v = v * b + d
     return -v if neg else v
 
